@@ -514,6 +514,24 @@ def rule_hashord(ctx):
                         r.exempt(key, where, HASHORD_TABLE[tkey])
                     else:
                         undecided.append(f"{where} {tkey} [{cons}/{kind}: {how}]")
+    # explicit site: ContractionTree.slice applies a frozenset of labels one by one;
+    # order-insensitive only because remove_ind rebuilds sliced_inds by sorting
+    tcs = ctx.p.cls(C.CORE, "ContractionTree")
+    sl = tcs.lookup("slice")
+    if sl is not None:
+        from .c06 import rule_order
+
+        key = ctx.key(sl, "C17-HASHORD", "ix_sl")
+        ro = [i for i in rule_order(ctx).instances if "remove_ind::C06-ORDER" in i.construct]
+        badro = [i for i in ro if i.verdict == "violation"]
+        if badro:
+            r.violation(key, sl.loc, "the indices returned by the slice search (a frozenset of "
+                        "labels) are applied in hash order, and remove_ind no longer re-sorts "
+                        "the sliced-index table on every path: the table order — and every "
+                        "seeded choice made from it (unslice_rand, annealing) — varies with "
+                        "PYTHONHASHSEED", because=badro[0].reason)
+        elif ro:
+            r.ok(key, sl.loc, "applied in hash order, but remove_ind re-sorts the table each time")
     if undecided:
         raise AnalysisError("C17-HASHORD cannot classify set iteration site(s): "
                             + "; ".join(undecided[:60]))
